@@ -373,11 +373,15 @@ where
 
 /// Compute error signal from `QuantizedParameters`.
 ///
+/// Returns `false` if an error value is not representable as a residual, i.e.
+/// it is outside of the range of `i32` excluding `i32::MIN`. The contents of
+/// `errors` must not be used in that case.
+///
 /// # Panics
 ///
 /// This function panics if `errors.len()` is smaller than `signal.len()`.
 #[allow(clippy::collapsible_else_if)]
-pub fn compute_error(qps: &QuantizedParameters, signal: &[i32], errors: &mut [i32]) {
+pub fn compute_error(qps: &QuantizedParameters, signal: &[i32], errors: &mut [i32]) -> bool {
     assert!(errors.len() >= signal.len());
     let maxabs_signal: u64 = find_max_abs::<16>(signal).into();
     // `Simd::reduce_sum` is avoided to mitigate overflow error.
@@ -392,21 +396,23 @@ pub fn compute_error(qps: &QuantizedParameters, signal: &[i32], errors: &mut [i3
         acc
     };
     let maxabs = maxabs_signal * sumabs_coefs as u64;
-    if maxabs < i32::MAX as u64 {
+    // bound for the error, i.e. the signal minus the shifted prediction.
+    let maxabs_error = (maxabs >> qps.shift().max(0)) + maxabs_signal + 1;
+    if maxabs < i32::MAX as u64 && maxabs_error < i32::MAX as u64 {
         // larger lanes here can alleviate inefficiency of unaligned reads.
         compute_error_impl::<i32, 64>(qps, signal, errors);
+        true
     } else {
         // This is very inefficient, but should rarely happen in BPS=16bit case.
         let signal64: Vec<i64> = signal.iter().map(|v| (*v).into()).collect();
         let mut errors64 = vec![0i64; signal64.len()];
         compute_error_impl::<i64, 64>(qps, &signal64, &mut errors64);
-        for (v, p) in errors64
-            .into_iter()
-            .map(|v| v as i32)
-            .zip(errors.iter_mut())
-        {
-            *p = v;
+        let mut representable = true;
+        for (v, p) in errors64.into_iter().zip(errors.iter_mut()) {
+            representable &= v > i64::from(i32::MIN) && v <= i64::from(i32::MAX);
+            *p = v as i32;
         }
+        representable
     }
 }
 
